@@ -218,7 +218,9 @@ def check_scores(ctx, ncases, model=True, only=None):
             ctx.notes.append(f"call-site fact changed: {e.name} passes weights_dims={facts[e.name]} (registry: {e.passes_weights_dims})")
         for ci in range(ncases):
             case = R.gen_case(rng, e, with_weights=(rng.random() < 0.5), nan_p=(0.15 if ci % 2 else 0.0),
-                              overlap=("same", "obs-superset", "obs-subset")[ci % 3])
+                              overlap=("same", "obs-superset", "obs-subset")[ci % 3], single_member=(ci % 3 == 2))
+            if ci % 3 == 2 and "member" in e.specific_sizes:
+                ctx.tag("single-member-ensemble")
             ctx.tag("overlap:" + ("same", "obs-superset", "obs-subset")[ci % 3])
             data = set(case.fcst_dims) | set(case.obs_dims)
             extra_w = set()
